@@ -750,7 +750,8 @@ pub fn sizes<S: USet>(e: &mut Eng<S>, thorough: bool) {
 }
 
 pub fn fixed<S: USet>(e: &mut Eng<S>, profile: &str) {
-    if matches!(profile, "collect" | "mem" | "alloc" | "det" | "serde" | "compact") {
+    // the size scenarios are the same for every seed: additional seeds of one check skip them (TS_SKIP_SIZES)
+    if matches!(profile, "collect" | "mem" | "alloc" | "det" | "serde" | "compact") && std::env::var("TS_SKIP_SIZES").is_err() {
         sizes(e, false);
     }
     if profile == "eqops" {
